@@ -1412,6 +1412,8 @@ class Generator:
                 return None
             clone["value"] = op["value"] + 1
         elif op["op"] == "map_partitions":
+            if "c" not in (op.get("kwargs") or {}):
+                return None
             clone["kwargs"] = {"c": op["kwargs"]["c"] + 1}
         else:
             key, space = self._TWIN_PARAMS[op["op"]]
